@@ -199,7 +199,7 @@ func c15opts(custom bool) []wire.OptionFn {
 
 func (ch c15) Run(c *core.Ctx) {
 	nb := ch.Batches(c.Tier)
-	ngroups, reps := 320, 3
+	ngroups, reps := 640, 3
 	if c.Tier == "thorough" {
 		ngroups, reps = 20000, 5
 	}
